@@ -485,8 +485,25 @@ impl<'a> World<'a> {
             )));
         }
 
+        if let Call::AddKeys { holder, list } = &call {
+            self.check_range_admission(&desc, *holder, list, tr.filtered_len, &q_before, &obs_q, &obs_f, &ret);
+        }
         if diverged.is_none() {
-            self.check_scheduled(&desc, &call, &tr, &q_before, &q_mid, &obs_q, &obs_f);
+            self.check_scheduled(&desc, &call, &tr, &q_mid, &obs_q, &obs_f);
+        } else {
+            // the tracking model cannot attribute the returned fetches; clause (a) straight from what is
+            // observable: a returned (holder, key) whose every in-flight version is one the node was told it holds
+            for (h, k) in &ret {
+                let cands: Vec<&Triple> = obs_f.iter().filter(|t| t.0 == *k && t.2 == *h).collect();
+                if !cands.is_empty() && cands.iter().all(|t| self.told.contains(&(t.0, t.1))) {
+                    let x = *cands[0];
+                    self.violate(
+                        "held.fetch_of_held_version",
+                        "returned_fetch",
+                        format!("{desc}: fetch of {} although the node holds that version", fmt_triple(&x)),
+                    );
+                }
+            }
         }
 
         // ---- bookkeeping of the simulated network fetches
@@ -527,6 +544,65 @@ impl<'a> World<'a> {
         }
     }
 
+    /// Clause (b), from observable facts only: whatever this advertisement added to the queue, or had fetched
+    /// at once without having been queued before, was admitted now; from a multi-key list it must be in range.
+    #[allow(clippy::too_many_arguments)]
+    fn check_range_admission(
+        &mut self,
+        desc: &str,
+        holder: usize,
+        list: &[(usize, Ty)],
+        filtered_len: Option<usize>,
+        q_before: &BTreeSet<Triple>,
+        obs_q: &BTreeSet<Triple>,
+        obs_f: &BTreeSet<Triple>,
+        ret: &[(usize, usize)],
+    ) {
+        let multi = list.len() >= 2;
+        let reduced = multi && filtered_len == Some(1);
+        let shape = if reduced { "multi_key_advert_reduced_to_one_key_by_filtering" } else { "multi_key_advert" };
+        let mut admitted: Vec<Triple> = obs_q.difference(q_before).cloned().collect();
+        for (h, k) in ret {
+            if *h != holder {
+                continue;
+            }
+            for t in obs_f.iter().filter(|t| t.0 == *k && t.2 == holder) {
+                if !q_before.contains(t) && list.iter().any(|(lk, lt)| lk == k && *lt == t.1) {
+                    admitted.push(*t);
+                }
+            }
+        }
+        if admitted.len() < list.len() && list.iter().any(|(k, t)| q_before.contains(&(*k, *t, holder))) {
+            self.rep.probe("readvertised_entry_already_pending");
+        }
+        let Some(r) = self.m.range else { return };
+        let rejected = list.iter().filter(|(k, _)| !self.index.contains_key(k) && self.dist[*k] > r).count();
+        if multi && rejected > 0 {
+            self.rep.probe_n("advertised_keys_out_of_range", rejected as u64);
+        }
+        if !multi {
+            if admitted.iter().any(|a| self.dist[a.0] > r) {
+                self.rep.probe("single_key_advert_out_of_range_fetched");
+            }
+            return;
+        }
+        for a in &admitted {
+            if self.dist[a.0] > r {
+                self.violate(
+                    "range.out_of_range_admitted",
+                    shape,
+                    format!(
+                        "{desc}: {} taken from a list of {} keys at distance {} > responsible distance {}",
+                        fmt_triple(a),
+                        list.len(),
+                        short(&self.dist[a.0]),
+                        short(&r)
+                    ),
+                );
+            }
+        }
+    }
+
     /// Clauses (a) (b) (c) (d) (e) (f) over the fetches scheduled by this call.
     #[allow(clippy::too_many_arguments)]
     fn check_scheduled(
@@ -534,7 +610,6 @@ impl<'a> World<'a> {
         desc: &str,
         call: &Call<'_>,
         tr: &Trace,
-        q_before: &BTreeSet<Triple>,
         q_mid: &BTreeSet<Triple>,
         obs_q: &BTreeSet<Triple>,
         obs_f: &BTreeSet<Triple>,
@@ -548,6 +623,9 @@ impl<'a> World<'a> {
         scheduled.extend(tr.batch.iter().cloned());
         if !tr.batch.is_empty() {
             self.rep.probe("batch_scheduled");
+        }
+        if tr.stale_scheduled > 0 {
+            self.rep.probe("expired_pending_entry_scheduled");
         }
         if tr.fast_blocked {
             self.rep.probe("fast_path_blocked_version_in_flight");
@@ -582,48 +660,6 @@ impl<'a> World<'a> {
                     advert_shape,
                     format!("{desc}: fetch of {} although the node holds that version", fmt_triple(s)),
                 );
-            }
-        }
-        // (b) admitted from a multi-key list => in range at admission
-        if let Call::AddKeys { holder, list } = call {
-            let mut admitted: Vec<Triple> = obs_q.difference(q_before).cloned().collect();
-            for s in &scheduled {
-                if s.2 == *holder && !q_before.contains(s) && list.iter().any(|(k, t)| *k == s.0 && *t == s.1) {
-                    admitted.push(*s);
-                }
-            }
-            if let Some(r) = self.m.range {
-                let mut rejected = 0;
-                for (k, _) in list.iter() {
-                    if !self.index.contains_key(k) && self.dist[*k] > r {
-                        rejected += 1;
-                    }
-                }
-                if multi && rejected > 0 {
-                    self.rep.probe_n("advertised_keys_out_of_range", rejected);
-                }
-                if multi {
-                    for a in &admitted {
-                        if self.dist[a.0] > r {
-                            self.violate(
-                                "range.out_of_range_admitted",
-                                advert_shape,
-                                format!(
-                                    "{desc}: {} taken from a list of {} keys at distance {} > responsible distance {}",
-                                    fmt_triple(a),
-                                    list.len(),
-                                    short(&self.dist[a.0]),
-                                    short(&r)
-                                ),
-                            );
-                        }
-                    }
-                } else if admitted.iter().any(|a| self.dist[a.0] > r) {
-                    self.rep.probe("single_key_advert_out_of_range_fetched");
-                }
-            }
-            if admitted.len() < list.len() && list.iter().any(|(k, t)| q_before.contains(&(*k, *t, *holder))) {
-                self.rep.probe("readvertised_entry_already_pending");
             }
         }
         // (c) nothing farther than the farthest-on-full limit
